@@ -125,6 +125,43 @@ def work(item, opts):
             o2.set_config_parameters(json.loads(json.dumps(d)))
             if o2.configuration != ref:
                 viol("set-config-differs", f"[{how}] re-configuration of a configured instance: {o2.configuration!r} != {ref!r}"[:300])
+    # 4b. set_config_parameters REPLACES the configuration: a dictionary that omits an optional parameter gives that
+    # parameter its default, whatever the instance held before (empty -> d1 -> d2 and ctor(c1) -> d2)
+    fields = Cfg.model_fields
+    optional = [k for k in sorted(fields) if not fields[k].is_required() and k not in ("early_stopping",)]
+    for k in optional:
+        full, _k = universe.make_config(rng, name, perturbed=True)
+        d0 = fields[k].default
+        # a previous configuration in which k is NOT at its default
+        prev = None
+        for cand in ([full.get(k)] if k in full else []) + ([not d0] if isinstance(d0, bool) else []) + \
+                ([d0 + 1, d0 + 2, d0 - 1] if isinstance(d0, int) and not isinstance(d0, bool) else []) + \
+                ([d0 * 0.5, d0 * 1.5, 0.05] if isinstance(d0, float) else []) + ([0.05] if d0 is None or k == "fitness_error" else []):
+            t_ = dict(full)
+            t_[k] = cand
+            if cand != d0 and universe.config_valid(name, t_):
+                prev = t_
+                break
+        d2 = {kk: vv for kk, vv in full.items() if kk != k}
+        if prev is None or not universe.config_valid(name, d2):
+            continue
+        ref = Cfg(**json.loads(json.dumps(d2)))
+        for how in ("ctor", "set"):
+            out["n"] += 1
+            out["dicts"] += 1
+            out["accepted"] += 1
+            if how == "ctor":
+                o3 = cls(Cfg(**json.loads(json.dumps(prev))))
+            else:
+                o3 = cls()
+                o3.set_config_parameters(json.loads(json.dumps(prev)))
+            try:
+                o3.set_config_parameters(json.loads(json.dumps(d2)))
+                if o3.configuration != ref or dumps(canon(o3.configuration)) != dumps(canon(ref)):
+                    viol("set-config-differs", f"[omitted optional '{k}' after a configuration with {k}={prev[k]!r} ({how})] "
+                                               f"{d2!r}: configuration {o3.configuration!r} != {ref!r}"[:400])
+            except Exception as e:
+                viol("set-config-rejects-valid", f"[omitted optional '{k}'] {d2!r}: {e!r}"[:300])
     # 5. run equivalence: ctor(cfg) vs ctor(); set_config_parameters(d)  (+ stale-read monitor)
     for t in range(item["n_runs"]):
         cfg, _k = universe.make_config(rng, name, perturbed=rng.random() < 0.5, max_cycles=rng.choice([2, 3, 5]))
